@@ -5,8 +5,29 @@ LEVEL = "model_checking"
 SRC = "engines/opx/sc_c03.cpp"
 
 
+LONG_SRC = ["engines/seqx/c03_long.cpp"]
+LONG_FLAGS = ["-O1", "-g"]
+
+
 def prebuild():
     opxlib.build("sc_c03", SRC)
+    vf.build("c03_long", LONG_SRC, LONG_FLAGS)
+
+
+def long_jobs(exe, tier):
+    js = []
+    q = tier == "quick"
+    first = True
+    for tbuf in ((1, 4) if q else (1, 2, 4)):
+        for soft, hard in (((1, 1), (2, 4), (1, 8)) if q else ((1, 1), (1, 2), (2, 4), (4, 8), (1, 8), (8, 8))):
+            for cadence in (0, 1, 3, 7):
+                for polls in ((1,) if q else (1, 2)):
+                    for sizes in (0, 1, 2, 3):
+                        for dead in (0, 1):
+                            js.append((exe, ["--tbuf", tbuf, "--soft", soft, "--hard", hard, "--cadence", cadence, "--polls", polls,
+                                             "--sizes", sizes, "--dead", dead, "--n", 300, "--sample", 1 if first else 0], 300))
+                            first = False
+    return js
 
 
 def jobs(tier):
@@ -33,6 +54,11 @@ def run(ctx):
     ctx.set_deadline(170 if ctx.tier == "quick" else 1800)
     exe = opxlib.build("sc_c03", SRC)
     opxlib.run_jobs(ctx, exe, jobs(ctx.tier), "sc_c03")
+    # long deterministic histories (no schedule branching): 300 statements of mixed sizes (up to 9 KB: the 256-byte queue
+    # grows through a chain of buffers), backend polled every 1/3/7 statements or only at the end, every limit triple
+    lexe = vf.build("c03_long", LONG_SRC, LONG_FLAGS)
+    for rr in vf.run_many(long_jobs(lexe, ctx.tier)):
+        ctx.absorb(rr, "c03_long")
     ctx.assumptions.append("frontend operations are atomic steps; the backend is preemptible at QUILL_VERIF_YIELD(1..4) and poll boundaries; sequentially consistent interleavings")
     ctx.assumptions.append("a blocked call that never completes is counted under stalls_observed and judged by C09, not here")
 
